@@ -22,7 +22,17 @@ func NewLinearHist(min, max float64, nbins int) *LinearHist {
 }
 
 func (h *LinearHist) bin(x float64) int {
-	return int(math.Floor(h.delta * (x - h.min)))
+	// Clamp before converting to int: the conversion of a float
+	// beyond the range of int is implementation-specific (on
+	// amd64 it yields the most negative int, which counted values
+	// far above the range as below it).
+	b := math.Floor(h.delta * (x - h.min))
+	if !(b >= 0) {
+		return -1
+	} else if b >= float64(len(h.bins)) {
+		return len(h.bins)
+	}
+	return int(b)
 }
 
 func (h *LinearHist) Add(x float64) {
